@@ -46,12 +46,12 @@ func (e *cloudENI) has6(ip netip.Addr) bool {
 
 // ipHist is the provenance record of one address (oracle C01.2).
 type ipHist struct {
-	eni            string
-	assignedSeq    int // last time the cloud assigned it
-	unassignedSeq  int // last successful UnAssign effect requested by the daemon (0: never since assignment)
-	omittedSeq     int // first LoadNetworkInterface answer since assignment that omitted it
-	remoteGoneSeq  int // removed remotely (drift)
-	assignCount    int // how many times the cloud has handed this address out during the run
+	eni           string
+	assignedSeq   int // last time the cloud assigned it
+	unassignedSeq int // last successful UnAssign effect requested by the daemon (0: never since assignment)
+	omittedSeq    int // first LoadNetworkInterface answer since assignment that omitted it
+	remoteGoneSeq int // removed remotely (drift)
+	assignCount   int // how many times the cloud has handed this address out during the run
 }
 
 // recycled tells whether the cloud handed the address out more than once in this run.
@@ -71,7 +71,6 @@ func (c *Cloud) newHist(ip netip.Addr, eni string) {
 	}
 	c.hist[ip] = &ipHist{eni: eni, assignedSeq: c.w.run.S.SeqNo(), assignCount: n + 1}
 }
-
 
 // Cloud is the node-level SimCloud behind factory.Factory.
 type Cloud struct {
